@@ -9,7 +9,10 @@ Decides:
       bind_parameters counts placeholders with such a scanner (not with str::matches);
  (R3) substitute_placeholders has an arm for every SqlValue variant (no wildcard) and its string arm doubles
       the quote character and wraps the text in quotes: values never alter the statement structure;
- (R4) py_to_sqlvalue tests for PyBool before the i64 extraction (Python bool is an int subclass);
+ (R3') the only characters the string arm rewrites are characters the lexer's string scanner treats specially
+      (writer/reader agreement with Lexer::tokenize_string: the quote; there are no backslash escapes);
+ (R4) py_to_sqlvalue tests for PyBool before the i64 extraction (Python bool is an int subclass) and extracts i64
+      before f64 before String (narrowest first: pyo3's float extraction accepts a Python int);
       sqlvalue_to_py has an arm for every variant.
 Does NOT decide pyo3 conversion semantics, special floats, or the values read back."""
 import re
@@ -157,6 +160,23 @@ def run(ctx):
             pat = resolve_const(sp, defs, t['args'][1]); rep = resolve_const(sp, defs, t['args'][2])
             if pat is not None and pat.get('t') == 'char' and pat.get('v') == 39 and rep is not None and str_const(rep) == "''":
                 doubled = True
+    # writer/reader agreement: every character the string arm rewrites must be one the lexer's string scanner treats specially
+    # (the scanner compares with the opening quote only, it has no backslash escapes): rewriting anything else changes the value
+    rd = ctx.fn('vibesql_parser::lexer::strings::<impl vibesql_parser::lexer::Lexer>::tokenize_string')
+    reader_special = set(char_tests(rd)) | {39}
+    for i, t in sp.calls():
+        if i in sreg and re.search(r'::(replace|replacen|replace_range)$', callee_name(t) or ''):
+            pat = resolve_const(sp, defs, t['args'][1])
+            pv = None
+            if pat is not None and pat.get('t') == 'char':
+                pv = pat.get('v')
+            elif pat is not None and str_const(pat) is not None and len(str_const(pat)) == 1:
+                pv = ord(str_const(pat))
+            ctx.instance(f'R3/rewrite/{pv}', {'rule': 'C30.R3', 'string_arm_rewrites': pv if pv is None else chr(pv), 'lexer_special': sorted(chr(c) for c in reader_special)})
+            if pv is None or pv not in reader_special:
+                ctx.finding('R3/string-arm/rewrite', f'substitute_placeholders rewrites {("the character " + repr(chr(pv))) if pv is not None else "a pattern"} in string '
+                            'parameters, but the lexer\'s string scanner (tokenize_string) does not treat it specially: the value that is stored '
+                            'differs from the value that was bound', sp.loc)
     tm = [x['text'] for x in format_sites(prog, sp) if x['block'] in sreg]
     ctx.instance('R3/string-arm', {'rule': 'C30.R3', 'quote_doubled': doubled, 'templates': tm})
     if not doubled or "'{}'" not in tm:
@@ -176,6 +196,15 @@ def run(ctx):
     if not first_bool or not all(any(g.dominates(b, i) for b in first_bool) for i in exi):
         ctx.finding('R4/py_to_sqlvalue/bool-after-int', 'py_to_sqlvalue extracts i64 before testing for bool: Python True/False are bound as the '
                     'integers 1/0 (bool is an int subclass)', p2s.loc)
+    # narrowest first: pyo3's f64 extraction accepts a Python int, so the i64 extraction has to come before it
+    exf = [i for i, t in p2s.calls() if '::extract' in (callee_name(t) or '') and re.search(r'\bf(64|32)\b', (callee_name(t) or '') + str(t['f'].get('ga', '')))]
+    exs = [i for i, t in p2s.calls() if '::extract' in (callee_name(t) or '') and re.search(r'string::String\b', (callee_name(t) or '') + str(t['f'].get('ga', '')))]
+    ctx.instance('R4/py_to_sqlvalue/order', {'rule': 'C30.R4', 'i64': exi, 'f64': exf, 'String': exs})
+    if exf and not all(any(g.dominates(a, b) for a in exi) for b in exf):
+        ctx.finding('R4/py_to_sqlvalue/float-before-int', 'py_to_sqlvalue extracts f64 before i64: a Python int is accepted by the float extraction '
+                    'and bound as a DOUBLE (3 becomes 3.0, integers above 2^53 lose digits)', p2s.loc)
+    if exs and not all(any(g.dominates(a, b) for a in exi + exf) for b in exs):
+        ctx.finding('R4/py_to_sqlvalue/string-before-number', 'py_to_sqlvalue extracts String before the numeric types', p2s.loc)
     s2p = ctx.fn(PY + 'conversions::sqlvalue_to_py')
     sw2 = max(enum_switches(prog, s2p, SV), key=lambda x: len(x['arms']))
     miss2 = [v for v in variants if v not in sw2['arms']]
